@@ -3,31 +3,25 @@ import MythVerif.Proofs.WsQueueTsoTac
 namespace MythVerif.WsqTso
 open MythVerif.Wsq
 
-set_option maxHeartbeats 4000000 in
 theorem f_T_ptr3_idle (s : St) (p : Pid) (e0 : Elem) : Inv s → s.opc = .idle → s.lock = .thief p →
     s.bufT p = [.ptr (s.lb - 1) (some e0)] → s.tpc p = .tp3 e0 →
     Inv (applySto { s with bufT := upd s.bufT p [] } (.ptr (s.lb - 1) (some e0))) := by
   intro h hopc hl h0 h1
   simp only [applySto]
-  cases h; simp only [hopc, ownerLocked, carry, resetting, ownerFlight] at *
-  tso_finish3
+  tso_fastO h hopc [tp3, tp4, carryC]
 
-set_option maxHeartbeats 4000000 in
 theorem f_T_ptr3_pu0 (s : St) (p : Pid) (e0 : Elem) (e) : Inv s → s.opc = .pu0 e → s.lock = .thief p →
     s.bufT p = [.ptr (s.lb - 1) (some e0)] → s.tpc p = .tp3 e0 →
     Inv (applySto { s with bufT := upd s.bufT p [] } (.ptr (s.lb - 1) (some e0))) := by
   intro h hopc hl h0 h1
   simp only [applySto]
-  cases h; simp only [hopc, ownerLocked, carry, resetting, ownerFlight] at *
-  tso_finish3
+  tso_fastO h hopc [tp3, tp4, carryC]
 
-set_option maxHeartbeats 4000000 in
 theorem f_T_ptr3_pu0f (s : St) (p : Pid) (e0 : Elem) (e t) : Inv s → s.opc = .pu0f e t → s.lock = .thief p →
     s.bufT p = [.ptr (s.lb - 1) (some e0)] → s.tpc p = .tp3 e0 →
     Inv (applySto { s with bufT := upd s.bufT p [] } (.ptr (s.lb - 1) (some e0))) := by
   intro h hopc hl h0 h1
   simp only [applySto]
-  cases h; simp only [hopc, ownerLocked, carry, resetting, ownerFlight] at *
-  tso_finish3
+  tso_fastO h hopc [tp3, tp4, pu0f, carryC]
 
 end MythVerif.WsqTso
